@@ -40,9 +40,12 @@ type Case struct {
 	Default  bool      `json:"default,omitempty"` // use alt.DefaultRecomposer (reset first) instead of a fresh *Recomposer
 	UseTags  bool      `json:"usetags,omitempty"` // decompose route: options for alt.Decompose
 	KeyExact bool      `json:"keyexact,omitempty"`
+	// FullPath: the decompose route writes type names with their package path (two types of
+	// different packages that share a short name are then told apart)
+	FullPath bool `json:"fullpath,omitempty"`
 }
 
-var namedKinds = []string{"pa.Item", "pb.Item", "pa.Box", "pb.Box", "pa.Emb", "tyx.Inner", "tyx.WithEmbed", "tyx.Deep", "tyx.Tags", "tyx.Nums"}
+var namedKinds = []string{"pa.Item", "pb.Item", "pa.Box", "pb.Box", "pb.Holder", "pa.Emb", "tyx.Inner", "tyx.WithEmbed", "tyx.Deep", "tyx.Tags", "tyx.Nums"}
 
 func init() {
 	// holders: types whose leaf type a recomposer learns from one field only (internal/tyx/holders.go)
@@ -169,7 +172,7 @@ func trip(cs Case, r *alt.Recomposer, v any) (out outcome) {
 		var err error
 		switch cs.Route {
 		case "decompose":
-			d := alt.Decompose(v, &ojg.Options{UseTags: cs.UseTags, KeyExact: cs.KeyExact, CreateKey: "^"})
+			d := alt.Decompose(v, &ojg.Options{UseTags: cs.UseTags, KeyExact: cs.KeyExact, CreateKey: "^", FullTypePath: cs.FullPath})
 			if r != nil {
 				_, err = r.Recompose(d, target)
 			} else {
@@ -444,6 +447,7 @@ func drawCase(t *rapid.T) Case {
 	if cs.Route == "decompose" {
 		cs.UseTags = rapid.IntRange(0, 2).Draw(t, "usetags") == 0
 		cs.KeyExact = rapid.IntRange(0, 2).Draw(t, "keyexact") == 0
+		cs.FullPath = rapid.IntRange(0, 2).Draw(t, "fullpath") == 0
 	}
 	n := rapid.IntRange(1, 4).Draw(t, "nsubjects")
 	for i := 0; i < n; i++ {
@@ -451,6 +455,12 @@ func drawCase(t *rapid.T) Case {
 		if rapid.IntRange(0, 2).Draw(t, "anon") != 0 {
 			s.Named = rapid.SampledFrom(namedKinds).Draw(t, "named")
 			s.Index = rapid.IntRange(0, 11).Draw(t, "index")
+			if s.Named == "pb.Holder" {
+				// an interface that holds a type whose short name another package has too: only
+				// the name with its path says which one is meant (alt: "the short name alone does
+				// not identify a type"), so this subject travels with full type paths
+				cs.Route, cs.FullPath = "decompose", true
+			}
 		} else if prev := lastAnon(cs.Subjects); prev != nil && rapid.IntRange(0, 3).Draw(t, "twin") == 0 {
 			// a second type with the same fields, kinds and order as an earlier one but other
 			// json tags: the two are convertible to each other, only the tags tell them apart
